@@ -590,3 +590,46 @@ pub fn files_compare(files: &[Option<(File, u64)>], model: &FlatModel) -> Result
     }
     Ok(())
 }
+
+// ---------------------------------------------------------------------------------------------
+// chunking stream adapters: deliver / accept at most `chunk` bytes per call
+
+use vm_memory::bitmap::BitmapSlice;
+use vm_memory::VolatileMemoryError;
+
+pub struct ChunkReader {
+    pub data: Vec<u8>,
+    pub pos: usize,
+    pub chunk: usize,
+    pub calls: usize,
+}
+
+impl ReadVolatile for ChunkReader {
+    fn read_volatile<B: BitmapSlice>(&mut self, buf: &mut VolatileSlice<B>) -> Result<usize, VolatileMemoryError> {
+        self.calls += 1;
+        let n = buf.len().min(self.chunk).min(self.data.len() - self.pos);
+        let sub = buf.subslice(0, n)?;
+        sub.copy_from(&self.data[self.pos..self.pos + n]);
+        self.pos += n;
+        Ok(n)
+    }
+}
+
+pub struct ChunkWriter {
+    pub data: Vec<u8>,
+    pub cap: usize,
+    pub chunk: usize,
+    pub calls: usize,
+}
+
+impl WriteVolatile for ChunkWriter {
+    fn write_volatile<B: BitmapSlice>(&mut self, buf: &VolatileSlice<B>) -> Result<usize, VolatileMemoryError> {
+        self.calls += 1;
+        let n = buf.len().min(self.chunk).min(self.cap - self.data.len());
+        let mut tmp = vec![0u8; n];
+        let k = buf.subslice(0, n)?.copy_to(&mut tmp[..]);
+        assert_eq!(k, n);
+        self.data.extend_from_slice(&tmp);
+        Ok(n)
+    }
+}
